@@ -167,6 +167,19 @@ PROPS = {    "C01": {
                         "parameter parsing under evaluation (Load with params) is not explored (DESIGN section 7)"],
         "outside_claim": COMMON_OUTSIDE + ["arbitrary bytes: yaml.v2 and mapstructure decoding", "base-config merge (mergo)", "C13.serial is checked on every accepted step/handler (json.Marshal model: fails on map[any]any and NaN/Inf)"],
     },
+    "C18": {
+        "obligations": [
+            {"name": "C18." + n, "pkg": "./internal/client", "replay": rp,
+             "quick": {"entry": "VerifHarness_C18_" + n, "sample_paths": 2,
+                       "flags": ["-unwind", "16", "-stub", "@/internal/dag.LoadYAML=load-yaml", "-stub", "@/internal/dag.LoadWithoutEval=load-file", "-stub", "@/internal/dag.LoadMetadata=load-file"],
+                       "bounds": {"names": "a, b, 'a b', a.b, ab", "texts": "valid A, valid B, valid new, invalid, empty", "operations": 1, "crash_points": "every mutating FS operation of the save; torn length symbolic"}}}
+            for n, rp in (("nooverwrite", "R1"), ("save", "R1c"), ("delete", "R1"))
+        ],
+        "assumptions": ["file-system model (DESIGN 3.2): os.WriteFile = open+truncate, write (may be torn at any prefix), close; os.Rename atomic and replacing; kill = loss of user-space state only",
+                        "dag.LoadYAML / LoadWithoutEval summarised: validity of a text is a harness-declared bit (C13 owns the loader); history store is a recording fake (C06 owns it)",
+                        "crash counterexamples are reported from the symbolic trace (a kill cannot be injected into the in-process native replay)"],
+        "outside_claim": COMMON_OUTSIDE + ["concurrent API calls (TOCTOU between exists and write)", "permissions and I/O errors", "sequences of more than one operation", "power-loss durability"],
+    },
     "C19": {
         "obligations": c13_obs("C19"),
         "assumptions": ["same harness and environment models as C13; command execution is observed as ghost exec events of the os/exec model and of the substituteCommands summary, environment changes as ghost setenv events of the os.Setenv model",
